@@ -36,7 +36,7 @@ def configure_keys(ctx, fn):
     lib = ctx.lib
     a = ctx.an.fa(fn["path"])
     keys, arms_by_key = set(), {}
-    fallback = None
+    fallback, best_strings = None, -1
     for n in thir.walk(thir.body_of(fn)):
         if n.get("k") == "Match" and n.get("src") == "Normal":
             sc = n["scrut"]
@@ -58,7 +58,10 @@ def configure_keys(ctx, fn):
                 if thir.pat_is_catchall(arm["pat"]):
                     errs = [x for x in thir.walk(arm["body"]) if x.get("k") == "Adt" and x.get("variant") == "UnexpectedProperty"]
                     rets = [x for x in thir.walk(arm["body"]) if x.get("k") == "Return"]
-                    fallback = bool(errs) and bool(rets)
+                    # the dispatching match is the one with the most key strings; a `matches!(key, "x")` further down is not it
+                    n_strings = sum(len(thir.pat_strings(a2["pat"])) for a2 in n["arms"])
+                    if fallback is None or n_strings >= best_strings:
+                        fallback, best_strings = bool(errs) and bool(rets), n_strings
         if n.get("k") == "Call" and n.get("fname") in ("get", "remove", "contains_key", "remove_entry") and len(n["args"]) > 1:
             if ("#param", 1) in a.origins(n["args"][0]):
                 s = thir.lit_str(n["args"][1])
@@ -91,6 +94,30 @@ def serialize_keys(ctx, fn, conf_fn):
     return keys
 
 
+def _unknown_key_refused(ctx, selfs, conf):
+    """configure() evaluated (sa/peval.py) on Default with one property the rule cannot know: True when the result is
+    Err(UnexpectedProperty), False when it is Ok, None when the evaluation does not establish either (the caller then
+    falls back to the shape of the key match)."""
+    from .. import peval
+    from ..peval import Enum, PyMap
+    lib = ctx.lib
+    dflt = lib.fn("<%s as core::default::Default>::default" % selfs)
+    pe = peval.PEval(lib, ctx.an)
+    try:
+        # rules without a Default (they need an argument) are given as an abstract value: the unknown key is refused before any field matters
+        rule = pe.call_fn(dflt, []) if dflt is not None and thir.body_of(dflt) else peval.make(lib, selfs)
+        r = pe.call_fn(conf, [rule, PyMap([("__verif_unknown_property__", Enum("rules::rule_property::RulePropertyValue", "Boolean", {"0": True}))])])
+    except peval.OutOfFuel:
+        return None
+    if isinstance(r, Enum) and r.variant == "Ok" and not any(w.startswith(("branch on unknown", "match on unknown")) for w in pe.unknown_reasons):
+        return False
+    if isinstance(r, Enum) and r.variant == "Err":
+        e = r.fields.get("0")
+        if isinstance(e, Enum) and e.variant == "UnexpectedProperty":
+            return True
+    return None
+
+
 # rules whose serialized form is known to lose properties (genuine, recorded): handled through known_findings.json
 def strict_and_keys(R, ctx):
     lib = ctx.lib
@@ -117,8 +144,13 @@ def strict_and_keys(R, ctx):
             # not a user-configurable rule object (built from the `bundle` section)
             R.ob(rs, "%s|not-deserialized" % short, True, ctx.where(conf), "internal rule, never read from a rule object", nontrivial=False)
             continue
-        R.ob(rs, "%s|rejects-unknown" % short, bool(fallback), ctx.where(conf),
-             "catch-all arm of the key match %s" % ("returns UnexpectedProperty" if fallback else "does not return UnexpectedProperty (unknown properties silently ignored)"))
+        sem = _unknown_key_refused(ctx, selfs, conf)
+        if sem is not None:
+            R.ob(rs, "%s|rejects-unknown" % short, sem, ctx.where(conf),
+                 "configure() evaluated with an unknown key %s" % ("returns UnexpectedProperty" if sem else "does NOT return UnexpectedProperty (unknown properties silently accepted)"))
+        else:
+            R.ob(rs, "%s|rejects-unknown" % short, bool(fallback), ctx.where(conf),
+                 "catch-all arm of the key match %s" % ("returns UnexpectedProperty" if fallback else "does not return UnexpectedProperty (unknown properties silently ignored)"))
         skeys = serialize_keys(ctx, ser, conf)
         for k in sorted(keys):
             n_keys += 1
